@@ -592,3 +592,13 @@ package interpreter
 // bit (6) must be set; otherwise a set FORKID bit needs the EnableSighashForkID flag
 //@ func interpreter.(*thread).checkHashTypeEncoding
 //@   ensures[C06.hashtype_encoding] (= (= err nil) (or (not (spec.flag_on t 4096)) (and (<= 1 (mod shf 64)) (<= (mod shf 64) 3) (ite (spec.flag_on t 8192) (= (mod (div shf 64) 2) 1) (=> (= (mod (div shf 64) 2) 1) (spec.flag_on t 2048))))))
+// script code: thread.subScript returns the current script from sub_skip(t) on; OP_CODESEPARATOR must make that the
+// opcode after itself. The second clause is a `check`: it FAILS for a separator at offset 0 (lastCodeSep = 0 also means
+// "no separator"): known finding, see known_findings.json.
+//@ func interpreter.(*thread).subScript
+//@   pure
+//@   requires (and (< (. t scriptIdx) (len (. t scripts))) (<= (spec.sub_skip t) (len (at (. t scripts) (. t scriptIdx)))))
+//@   ensures[C06.subscript] (and (= (arr result) (arr (at (. t scripts) (. t scriptIdx)))) (= (off result) (+ (off (at (. t scripts) (. t scriptIdx))) (spec.sub_skip t))) (= (len result) (- (len (at (. t scripts) (. t scriptIdx))) (spec.sub_skip t))))
+//@ func interpreter.opcodeCodeSeparator
+//@   ensures[C06.codesep_sets] (and (= err nil) (= (. t lastCodeSep) (. t scriptOff)))
+//@   check[C06.codesep_script_code_starts_after] (= (spec.sub_skip t) (+ (. t scriptOff) 1))
